@@ -1,5 +1,6 @@
 import Gallia.Proofs.Lemmas.ParseTransport
 import Gallia.Proofs.Lemmas.ParseUnicode
+import Gallia.Proofs.Lemmas.SockOpts
 import Gallia.Gen.C20Tables
 /-!
   C20 — target URIs and range expressions denote exactly what the user wrote.
@@ -624,5 +625,92 @@ theorem connect_refusals :
 /-- a missing required address or an unreadable number is refused -/
 example : doipConfig [(kSrcAddr, ['1'])] = none ∧ doipConfig [(kSrcAddr, ['1']), (kTargetAddr, ['h', 'a', 'n', 's'])] = none := by
   decide
+
+/-! ## the socket level: the kernel reads the numbers the URI states
+
+  `isotpOptsBlock` lays the settings out as `struct can_isotp_options` of linux/can/isotp.h (the layout constants are trusted base in
+  `Model/ParseTransport.lean`); the check compares the bytes the real `connect()` hands to `setsockopt` with this block. -/
+
+/-- the option block decodes (as the kernel reads it) back to the fields it was built from -/
+theorem isotp_opts_roundtrip (o : IsotpOpts) (h : o.WF) : decodeIsotpOpts (isotpOptsBlock o) = some o := decode_block o h
+
+def byteRange (v : Option Int) : Prop := ∀ z, v = some z → 0 ≤ z ∧ z < 256
+
+/-- for every ISO-TP config whose numbers fit their fields the block is accepted and the kernel reads, field by field, the setting of
+    that name (absent = 0) with exactly the flags of the settings present -/
+theorem isotp_opts_of_config (c : ISOTPCfg) (hft : ∀ z, c.frameTxtime = some z → 0 ≤ z ∧ z < 4294967296)
+    (hea : byteRange c.extAddress) (hra : byteRange c.rxExtAddress) (htp : byteRange c.txPadding) (hrp : byteRange c.rxPadding) :
+    (isotpOptsOf c).bind (fun o => decodeIsotpOpts (isotpOptsBlock o)) =
+      some ⟨flagIf c.extAddress fExtendAddr + flagIf c.txPadding fTxPadding + flagIf c.rxPadding fRxPadding +
+              flagIf c.rxExtAddress fRxExtAddr,
+            (c.frameTxtime.getD 10).toNat, (c.extAddress.getD 0).toNat, (c.txPadding.getD 0).toNat, (c.rxPadding.getD 0).toNat,
+            (c.rxExtAddress.getD 0).toNat⟩ := by
+  have ⟨e1, b1⟩ := optByte_ok _ hea
+  have ⟨e2, b2⟩ := optByte_ok _ htp
+  have ⟨e3, b3⟩ := optByte_ok _ hrp
+  have ⟨e4, b4⟩ := optByte_ok _ hra
+  have hf : 0 ≤ c.frameTxtime.getD 10 ∧ c.frameTxtime.getD 10 < 4294967296 := by
+    cases hc : c.frameTxtime with
+    | none => simp
+    | some z => simpa using hft z hc
+  have hfl : flagIf c.extAddress fExtendAddr + flagIf c.txPadding fTxPadding + flagIf c.rxPadding fRxPadding +
+      flagIf c.rxExtAddress fRxExtAddr < 4294967296 := by
+    simp only [flagIf, fExtendAddr, fTxPadding, fRxPadding, fRxExtAddr]
+    repeat' split
+    all_goals omega
+  simp only [isotpOptsOf, e1, e2, e3, e4, hf, and_self, not_true_eq_false, if_false, Option.bind_some]
+  exact decode_block _ ⟨hfl, (by show (c.frameTxtime.getD 10).toNat < 4294967296; omega), b1, b2, b3, b4⟩
+
+def optVal (v : Option (Spelling × Int)) : Option Int := v.map (·.2)
+
+/-- from the URI to the kernel: an ISO-TP target as the discoverer writes it, every number in any notation, programs the transport with
+    `ext_address`, `txpad_content`, `rxpad_content`, `rx_ext_address` = the numbers written under `ext_address`, `tx_padding`, `rx_padding`,
+    `rx_ext_address` (0 and flag off when absent) -/
+theorem isotp_uri_programs_written_numbers (h : Str) (hok : HostOK h) (fd ext : Bool)
+    (s1 : Spelling) (src : Int) (s2 : Spelling) (dst : Int) (ea ra tp rp : Option (Spelling × Int))
+    (h1 : s1.WF) (h2 : s2.WF) (hea : optOK ea) (hra : optOK ra) (htp : optOK tp) (hrp : optOK rp)
+    (rea : byteRange (optVal ea)) (rra : byteRange (optVal ra)) (rtp : byteRange (optVal tp)) (rrp : byteRange (optVal rp)) :
+    (((parseUri (fromParts ['i', 's', 'o', 't', 'p'] h none (isotpArgs fd ext s1 src s2 dst ea ra tp rp))).bind
+        (fun u => isotpConfig u.args)).bind isotpOptsOf).bind (fun o => decodeIsotpOpts (isotpOptsBlock o))
+      = some ⟨flagIf (optVal ea) fExtendAddr + flagIf (optVal tp) fTxPadding + flagIf (optVal rp) fRxPadding +
+                flagIf (optVal ra) fRxExtAddr,
+              10, ((optVal ea).getD 0).toNat, ((optVal tp).getD 0).toNat, ((optVal rp).getD 0).toNat, ((optVal ra).getD 0).toNat⟩ := by
+  rw [config_accepts_isotp h hok fd ext s1 src s2 dst ea ra tp rp h1 h2 hea hra htp hrp]
+  simp only [Option.bind_some]
+  exact isotp_opts_of_config ⟨src, dst, some ext, some fd, none, optVal ea, optVal ra, optVal tp, optVal rp, none⟩
+    (fun z hz => by cases hz) rea rra rtp rrp
+
+/-- non-vacuity and the layout on a concrete target: `rx_padding=0x55` is the third byte after the two words, not the fourth -/
+example : isotpOptsOf ⟨0x6f1, 0x6a0, some false, some false, none, none, none, some 0xAA, some 0x55, none⟩ =
+      some ⟨0x00c, 10, 0, 0xAA, 0x55, 0⟩ ∧
+    isotpOptsBlock ⟨0x00c, 10, 0, 0xAA, 0x55, 0⟩ = [0x0c, 0, 0, 0, 10, 0, 0, 0, 0, 0xAA, 0x55, 0] ∧
+    (⟨0x20c, 10, 0, 0xAA, 0x55, 0x7⟩ : IsotpOpts).WF := by
+  refine ⟨by decide, by decide, ?_⟩
+  unfold IsotpOpts.WF
+  decide
+
+/-- the ids as bound: 11 bits, or 29 bits with the EFF flag -/
+theorem calcFlags_small (id : Nat) (ext : Bool) (h : id < 2048) :
+    calcFlags (id : Int) ext = if ext then id + 0x80000000 else id := by
+  unfold calcFlags canEffFlag
+  split <;> omega
+
+theorem calcFlags_ext (id : Nat) (h : id < 536870912) : calcFlags (id : Int) true = id + 0x80000000 := by
+  unfold calcFlags canEffFlag
+  simp only [if_true]
+  omega
+
+/-- the three-byte blocks (`can_isotp_ll_options`: mtu, tx_dl, tx_flags; `can_isotp_fc_options`: bs, stmin, wftmax) decode back -/
+theorem isotp_triple_roundtrip (a b c : Nat) (ha : a < 256) (hb : b < 256) (hc : c < 256) :
+    decodeTriple (tripleBlock a b c) = some (a, b, c) := by
+  simp only [tripleBlock, decodeTriple, u8_toNat _ ha, u8_toNat _ hb, u8_toNat _ hc]
+
+/-- a CAN-FD target with the default or a written `tx_dl` programs `mtu = 72` (CANFD_MTU), that `tx_dl`, and binds rx = dst, tx = src -/
+theorem isotp_sock_fd (c : ISOTPCfg) (o : IsotpOpts) (ho : isotpOptsOf c = some o) (hfd : c.isFd = some true)
+    (hdl : 0 ≤ c.txDl.getD 64 ∧ c.txDl.getD 64 < 256) :
+    isotpSock c = ⟨[(solCanIsotp, canIsotpOpts, .block (isotpOptsBlock o)),
+                    (solCanIsotp, canIsotpLlOpts, .block (tripleBlock 72 (c.txDl.getD 64).toNat 0))],
+                   some (some (calcFlags c.dst (c.isExtended.getD false), calcFlags c.src (c.isExtended.getD false)))⟩ := by
+  simp only [isotpSock, ho, hfd, Option.getD_some, if_true, optByte, hdl, and_self, List.cons_append, List.nil_append]
 
 end Gallia.C20
